@@ -194,11 +194,13 @@ func argRepresentable(arg string) bool {
 }
 
 // valueAlphabet: the values text-carrying actions take.
-var textValues = []string{"m", "a b", "a,b", "a:b", "a, b:c", "it's", "'q'", "x=y,z:w", "a,'b',c"}
+var textValues = []string{"m", "a b", "a,b", "a:b", "a, b:c", "it's", "'q'", "x=y,z:w", "a,'b',c", "it's, x:y"}
 
 // valueRepresentable: a value has a spelling unless it contains a backslash
 // (the scanner treats the character after any backslash as escaped).
-func valueRepresentable(v string) bool { return !strings.Contains(v, "\\") && v != "" && v == strings.TrimSpace(v) }
+func valueRepresentable(v string) bool {
+	return !strings.Contains(v, "\\") && v != "" && v == strings.TrimSpace(v)
+}
 
 func acts(kv ...string) []Action {
 	var out []Action
@@ -218,7 +220,7 @@ func payloads(thorough bool) []Action {
 	for _, v := range []string{"m", "a,b", "it's", "'q'"} {
 		out = append(out, Action{"rev", v}, Action{"ver", v})
 	}
-	for _, v := range []string{"1", "a b", "a,b", "a:b", "it's", "x=y,z:w"} {
+	for _, v := range []string{"1", "a b", "a,b", "a:b", "it's", "x=y,z:w", "it's, x:y"} {
 		out = append(out, Action{"setvar", "tx.k=" + v})
 	}
 	out = append(out, Action{"severity", "2"}, Action{"severity", "CRITICAL"}, Action{"t", "lowercase"})
@@ -314,17 +316,17 @@ var sentinel = Desc{SecAction: true, Actions: acts("id=99", "phase=1", "pass", "
 
 // Style is one way of writing a description down.
 type Style struct {
-	DirCase  int   `json:"dc,omitempty"`  // 0 SecRule, 1 secrule, 2 SECRULE
-	ActCase  int   `json:"ac,omitempty"`  // 0 msg, 1 MSG, 2 Msg
-	Quote    int   `json:"qu,omitempty"`  // 0 values quoted only where needed, 1 every value quoted
-	CommaSp  int   `json:"cs,omitempty"`  // 0 "a,b", 1 "a, b"
-	Cont     []int `json:"ct,omitempty"`  // token boundaries carrying a line continuation
-	Indent   int   `json:"in,omitempty"`  // 0 none, 1 first line indented with spaces, continuation lines with tab+spaces
+	DirCase  int   `json:"dc,omitempty"` // 0 SecRule, 1 secrule, 2 SECRULE
+	ActCase  int   `json:"ac,omitempty"` // 0 msg, 1 MSG, 2 Msg
+	Quote    int   `json:"qu,omitempty"` // 0 values quoted only where needed, 1 every value quoted
+	CommaSp  int   `json:"cs,omitempty"` // 0 "a,b", 1 "a, b"
+	Cont     []int `json:"ct,omitempty"` // token boundaries carrying a line continuation
+	Indent   int   `json:"in,omitempty"` // 0 none, 1 first line indented with spaces, continuation lines with tab+spaces
 	CRLF     bool  `json:"crlf,omitempty"`
-	Comments int   `json:"cm,omitempty"`  // 0 none, 1 comment and blank lines around every directive
-	Place    int   `json:"pl,omitempty"`  // 0 inline, 1 included file, 2 nested include in a sub directory (quoted path), 3 glob include
-	NoFinal  bool  `json:"nf,omitempty"`  // the last line has no newline
-	LongLine int   `json:"ll,omitempty"`  // 1 a 70 kB comment line precedes the rule
+	Comments int   `json:"cm,omitempty"` // 0 none, 1 comment and blank lines around every directive
+	Place    int   `json:"pl,omitempty"` // 0 inline, 1 included file, 2 nested include in a sub directory (quoted path), 3 glob include
+	NoFinal  bool  `json:"nf,omitempty"` // the last line has no newline
+	LongLine int   `json:"ll,omitempty"` // 1 a 70 kB comment line precedes the rule
 }
 
 func (s Style) has(b int) bool {
@@ -403,6 +405,40 @@ func (s Style) only(dim string) Style {
 		o.LongLine = s.LongLine
 	}
 	return o
+}
+
+// with merges two styles (each departing from canonical in different dimensions).
+func (s Style) with(o Style) Style {
+	if o.DirCase != 0 {
+		s.DirCase = o.DirCase
+	}
+	if o.ActCase != 0 {
+		s.ActCase = o.ActCase
+	}
+	if o.Quote != 0 {
+		s.Quote = o.Quote
+	}
+	if o.CommaSp != 0 {
+		s.CommaSp = o.CommaSp
+	}
+	if len(o.Cont) > 0 {
+		s.Cont = o.Cont
+	}
+	if o.Indent != 0 {
+		s.Indent = o.Indent
+	}
+	if o.Comments != 0 {
+		s.Comments = o.Comments
+	}
+	if o.Place != 0 {
+		s.Place = o.Place
+	}
+	if o.LongLine != 0 {
+		s.LongLine = o.LongLine
+	}
+	s.CRLF = s.CRLF || o.CRLF
+	s.NoFinal = s.NoFinal || o.NoFinal
+	return s
 }
 
 func caseOf(name string, mode int) string {
